@@ -927,6 +927,16 @@ pub fn run_action(sh: &Arc<Shared>, a: &Action) {
         lk(&sh.log).unsub_marks[*k].push((t0, t1));
       }
     }
+    Action::DropUsingUnwinding(k) => {
+      let s = lk(&sh.subs)[*k].clone();
+      if let Some(s) = s {
+        let t0 = arx_rt::stamp();
+        let u = utils::Using::new(s);
+        arx_rt::facade::with_simulated_unwinding(move || drop(u));
+        let t1 = arx_rt::stamp();
+        lk(&sh.log).unsub_marks[*k].push((t0, t1));
+      }
+    }
     Action::Advance(ms) => arx_rt::sleep_ns(ms * 1_000_000),
     Action::Connect => {
       let p = lk(&sh.publish).clone();
